@@ -407,11 +407,15 @@ def check(prop, tier, seed, into=None):
     with mp.Pool(min(16, os.cpu_count() or 4)) as pool:
         rres = pool.map(random_run, jobs, chunksize=64)
     alltraces += rres
+    # the same object under a real event loop: asyncio tasks, asyncio.Lock, Task.cancel()
+    from . import eng_aio  # noqa: PLC0415
+    aio = eng_aio.traces_for("cprop", tier, seed)
+    alltraces += aio
     rejected, st = validate("CPropObs", [{"cfg": t["cfg"], "ev": t["ev"]} for t in alltraces])
     for idx, matched in sorted(rejected.items()):
         tr = alltraces[idx]
         v.violation(signature(tr, matched),
-                    {"engine": "cprop", "mode": "random" if "seed" in tr else "graph", "spec": "CPropObs", "cfg": tr["cfg"], "path": tr["path"],
+                    {"engine": "cprop", "mode": ("asyncio" if tr["path"][:1] == ["asyncio"] else "random") if "seed" in tr else "graph", "spec": "CPropObs", "cfg": tr["cfg"], "path": tr["path"],
                      "step": matched, "matched_prefix": tr["ev"][max(0, matched - 6): matched],
                      "rejected_event": tr["ev"][matched] if matched < len(tr["ev"]) else None, "drift": tr.get("drift")})
     benign = sum(1 for i, t in enumerate(alltraces) if t.get("drift") and i not in rejected)
@@ -426,7 +430,7 @@ def check(prop, tier, seed, into=None):
     return v.finish({
         "states": tot["states"], "transitions": tot["transitions"],
         "traces_validated_against_impl": st["traces"] + tot["paths"], "edge_cover_paths": tot["paths"],
-        "drifted_replays": tot["drift"], "drift_benign": benign, "random_schedule_traces": len(rres),
+        "drifted_replays": tot["drift"], "drift_benign": benign, "random_schedule_traces": len(rres), "asyncio_loop_traces": len(aio),
         "traces_validated_by_TLC_against_CPropObs": st["traces"], "trace_validation": st,
         "configs": [list(c) for c in TIERS[tier]], "exhaustive": True, "vacuity_guard_actions_taken": vac,
         "evaluations": tot["paths"] + len(rres), "distinct_nontrivial": tot["paths"],
